@@ -178,7 +178,12 @@ def pixel_region_spec(rng, cls=None, size=None, center=None, include=None, angle
                 ox, oy = float(round(ox)), float(round(oy)) + 0.5
             return S.reg(cls, meta=meta, vertices=S.pix(S.arr_spec([x - ox for x in xs]), S.arr_spec([y - oy for y in ys])),
                          origin=S.pix(ox, oy))
-        return S.reg(cls, meta=meta, vertices=S.pix(S.arr_spec(xs), S.arr_spec(ys)))
+        vx, vy = S.arr_spec(xs), S.arr_spec(ys)
+        if rng.random() < 0.2:
+            # the vertex arrays as views / read-only arrays (strides and flags are not part of a polygon's value)
+            vx['lay'] = rng.choice(['strided', 'neg', 'readonly'])
+            vy['lay'] = rng.choice(['strided', 'neg', 'readonly', None]) or vx['lay']
+        return S.reg(cls, meta=meta, vertices=S.pix(vx, vy))
     if cls == 'RegularPolygonPixelRegion':
         return S.reg(cls, meta=meta, center=c, nvertices=rng.randint(3, 12), radius=L / 2, angle=ang)
     if cls == 'CircleAnnulusPixelRegion':
